@@ -115,9 +115,14 @@ def kdeGradCell (m n : Nat) (o : Nat → Option α) (y : Nat → α) (s : Nat) :
       - isum n (fun s' => softmaxI n (kdeScore bw2 y v) s' * kdeScore bw2 y v s') * kdeD n y s
       - kdeD n y s / two)
 
-/-- LogNormalKDEFilter as it is: the Gaussian KDE of the logarithms (no `- log y` term; bandwidth
-    from the simulated log-values) -/
-def lnkdeCell (m n : Nat) (o : Nat → Option α) (y : Nat → α) : α := kdeCell m n (logo o) (logv y)
+/-- LogNormalKDEFilter: the Gaussian KDE of the logarithms, minus `log y` of every measurement
+    (Jacobian of the log-normal density); bandwidth from the simulated log-values -/
+def lnkdeCell (m n : Nat) (o : Nat → Option α) (y : Nat → α) : α :=
+  msum m (logo o) (fun lv => kdeTerm n (logv y) lv - lv)
+
+/-- `legacy`: the class before commit 95a9ff7 (no `- log y` term) -/
+def lnkdeCellLegacy (m n : Nat) (o : Nat → Option α) (y : Nat → α) : α :=
+  kdeCell m n (logo o) (logv y)
 
 def lnkdeGradCell (m n : Nat) (o : Nat → Option α) (y : Nat → α) (s : Nat) : α :=
   let ly := logv y
@@ -183,6 +188,12 @@ def cellGrad (k : FKind) (m n : Nat) (o : Nat → Option α) (y : Nat → α) (s
 def filterVal (k : FKind) (m n R T : Nat) (obs : Nat → Nat → Nat → Option α)
     (y : Nat → Nat → Nat → α) : α :=
   isum R (fun r => isum T (fun j => cellVal k m n (fun i => obs i r j) (fun s => y s r j)))
+
+/-- `legacy` LogNormalKDEFilter (before commit 95a9ff7): the sum over all cells without the
+    `- log y` terms; kept for `C12_lognormalKDE_jacobian_counterexample` only -/
+def filterValLnkdeLegacy (m n R T : Nat) (obs : Nat → Nat → Nat → Option α)
+    (y : Nat → Nat → Nat → α) : α :=
+  isum R (fun r => isum T (fun j => lnkdeCellLegacy m n (fun i => obs i r j) (fun s => y s r j)))
 
 /-- `compute_sensitivities`, entry `[s, r, j]` -/
 def filterGrad (k : FKind) (m n : Nat) (obs : Nat → Nat → Nat → Option α)
@@ -342,7 +353,7 @@ def mvar (m : Nat) (o : Nat → Option α) : α :=
   msum m o (fun v => (v - mmean m o) * (v - mmean m o)) / (mcount m o - oneS)
 
 /-- documented log-density of ONE measurement `v` given the simulated values `y` of its cell -/
-def docTerm (k : FKind) (m n : Nat) (o : Nat → Option α) (y : Nat → α) (v : α) : α :=
+def docTerm (k : FKind) (_m n : Nat) (_o : Nat → Option α) (y : Nat → α) (v : α) : α :=
   match k with
   | .gauss => log (npdf (meanI n y) (varI n y) v)
   | .gkde =>
@@ -353,14 +364,15 @@ def docTerm (k : FKind) (m n : Nat) (o : Nat → Option α) (y : Nat → α) (v 
     log (isum K (fun c => npdf (meanI p (blk p c y)) (varI p (blk p c y)) v / ofNat K))
   | .lognorm => log (npdf (meanI n (logv y)) (varI n (logv y)) (log v) / v)
   | .lnkde =>
-    -- bandwidth from the MEASURED log-values of the cell, as the docstring states
-    let bw := bwDoc n (mvar m (logo o))
+    -- the log-normal kernel density; bandwidth by the rule of thumb on the SIMULATED log-values
+    -- (the docstring's bandwidth from the measured log-values is `docTermLnkdeMeasured`)
+    let bw := bwDoc n (varI n (logv y))
     log (isum n (fun s => npdf (log (y s)) (bw * bw) (log v) / v) / ofNat n)
 
-/-- the log-normal KDE with the bandwidth taken from the simulated log-values (the standard
-    rule of thumb the docstring mentions as the alternative) -/
-def docTermLnkdeSim (n : Nat) (y : Nat → α) (v : α) : α :=
-  let bw := bwDoc n (varI n (logv y))
+/-- the log-normal KDE with the bandwidth from the MEASURED log-values of the cell, as the class
+    docstring states it (chi deviates: known finding, bandwidth only) -/
+def docTermLnkdeMeasured (m n : Nat) (o : Nat → Option α) (y : Nat → α) (v : α) : α :=
+  let bw := bwDoc n (mvar m (logo o))
   log (isum n (fun s => npdf (log (y s)) (bw * bw) (log v) / v) / ofNat n)
 
 def docVal (k : FKind) (m n R T : Nat) (obs : Nat → Nat → Nat → Option α)
